@@ -20,6 +20,8 @@ Line protocol of the C03 driver (one line in, one line out).  Values are printed
   lik <dev> <J> <P> <G|_>              -> `value <grad>`  (dev = data - F(x); J m×p; P m×m; G p×n Jacobian of par2fun)
   poststatus <hasGrad> <dom> <rangeId> <precOk> <fd> <none|twolik|family> <dimgt1>  -> status of (posterior) gradient
   likimg <C|F> <h> <w> <dev> <J> <P>   -> `value <grad>`  (Image2D domain: fun2par of the image-shaped gradient by order)
+  fdhist <e:eps|e:_|d|g>...            -> per `g`: `closed` | `fd:<eps>`   (FD configuration state machine)
+  pgrad <x> <mu> <P>                   -> `value <-(P(x-mu))>`
   idgeoms                              -> the assumed list of identity geometries
   logndense <x> <logx> <mu> <C>        -> `value <grad>` | `nan` | `raise`   (Lognormal prior, any covariance form)
   sum <v1> <v2> ...                    -> `value <v1+v2+...>`
@@ -263,6 +265,32 @@ def step : List String → String
       let G : Nat → Nat → Rat := image2dJac (ord = "F") h w
       s!"value {fmtQs ((List.range (h * w)).map fun i => likGrad dev.length (h * w) (h * w) (fn2 P) (fn dev) (fn2 J) (some G) i)}"
     | _, _, _, _, _ => "bad-op"
+  -- fdhist <op> <op> ...   op ∈ e:<eps> | e:_ | d | g   -> for every `g`: `closed` or `fd:<eps>`, space separated
+  | "fdhist" :: ops =>
+    let rec go (c : FDCfg) (ops : List String) (acc : List String) : Option (List String) :=
+      match ops with
+      | [] => some acc.reverse
+      | "d" :: r => go (fdApply c .disable) r acc
+      | "g" :: r => go c r ((match fdMode c with | none => "closed" | some e => "fd:" ++ fmtRatS e) :: acc)
+      | o :: r =>
+        if o.startsWith "e:" then
+          let a := (o.drop 2).toString
+          if a = "_" then go (fdApply c (.enable none)) r acc
+          else match parseRat a with
+            | some e => go (fdApply c (.enable (some e))) r acc
+            | none => none
+        else none
+    match go FDCfg.init ops [] with
+    | some l => if l.isEmpty then "_" else " ".intercalate l
+    | none => "bad-op"
+  -- pgrad <x> <mu> <P>  -> `value <-(P (x-mu))>`  (P given: the precision the log-density uses)
+  | ["pgrad", x, mu, P] =>
+    match parseVec x, parseVec mu, parseMat P with
+    | some x, some mu, some P =>
+      let n := x.length
+      if P.length ≠ n || !(bcastOk mu n) then "raise" else
+      s!"value {fmtQs ((List.range n).map fun i => gaussGrad n (fn2 P) (fn x) (fun j => bcast mu j) i)}"
+    | _, _, _ => "bad-op"
   | ["idgeoms"] => ",".intercalate identityGeometries
   -- logndense <x> <log x (leaf)> <mu> <cov matrix>  -> `value <grad>` | `nan` | `raise`
   | ["logndense", x, lx, mu, C] =>
